@@ -307,7 +307,9 @@ impl HirSpec {
     pub fn insert_schema(&mut self, record: impl Into<Record>) {
         let record = record.into();
         let name = record.name().to_string();
-        if !name.chars().next().unwrap().is_uppercase() {
+        // Names that start with a digit are fine (an inline response of operation `2fa` is `2FaResponse`,
+        // which becomes `_2FaResponse`); only a lower-case first letter indicates a mistake.
+        if name.chars().next().unwrap().is_lowercase() {
             panic!("Schema name must be uppercase: {}", name);
         }
         self.schemas.insert(name, record);
